@@ -205,7 +205,8 @@ def Mapping.mapPlain (m : Mapping) (pos : Int) (assoc : Int := 1) : Int :=
 
 def Mapping.map (m : Mapping) (pos : Int) (assoc : Int := 1) : Option Int :=
   if m.mirror.isEmpty then
-    (if m.to ≤ m.maps.length then some (m.mapPlain pos assoc) else none)
+    -- `for i in range(from_, to): pos = self.maps[i].map(...)`: IndexError iff the loop reaches `len(maps)`
+    (if m.to ≤ m.maps.length ∨ m.to ≤ m.from_ then some (m.mapPlain pos assoc) else none)
   else (m.mapResult pos assoc).map (·.pos)
 
 /-- The mapping the code builds when a history `ms` is undone in place:
